@@ -516,6 +516,10 @@ def run_case(case, repo_checks=True):
                     if r['type'] == 'copy':
                         n += svc.key_events.get(r['copy_source']['Key'], 0)
                     return n >= c['calls']
+                if 'point' in c:
+                    # right before the effect of the nth scheduling point of
+                    # that kind (the k-th file write, rename, body read, ...)
+                    return sched.label_counts.get(c['point'], 0) > c['nth']
                 return sched.step >= c['at']
             sched.point(lambda: (len(R.transfers) > ti
                                  and R.transfers[ti]['future'] is not None
